@@ -1018,6 +1018,18 @@ func checkComparators(c *Ctx, r *Run, fns []*ssa.Function) {
 					}
 				}
 			}
+			// `for i := range a`: the index is phi(-1, i+1)+1, tested before use
+			if inc, ok := bo.X.(*ssa.BinOp); ok && inc.Op == token.ADD {
+				if one, ok := constInt(inc.Y); ok && one == 1 {
+					if ph, ok := inc.X.(*ssa.Phi); ok {
+						for _, e := range ph.Edges {
+							if v, ok := constInt(e); ok && v == -1 {
+								from0 = true
+							}
+						}
+					}
+				}
+			}
 			r.Check("CMP-1", name+"|whole array", c.Pos(iff.Cond.Pos()), k == a0.Len() && from0, fmt.Sprintf("the comparison walks all %d elements", a0.Len()),
 				fmt.Sprintf("the comparison loop covers elements 0..%d of a %d-element array: differences in the remaining elements go unnoticed, so a consistency check built on it accepts altered messages", k-1, a0.Len()))
 		}
